@@ -1,6 +1,7 @@
 package corelib
 
 import (
+	"bytes"
 	"fmt"
 
 	"github.com/miekg/dns"
@@ -165,9 +166,11 @@ func GenUdpQueries(g *Gen, n int) []Query {
 }
 
 // cacheQuestion is one question of a cache history together with the inputs that all its
-// queries share: the response cache is keyed by (location, type, class, lower-cased name), a
-// cached answer keeps the owner-name case of the first asker, and the answer count is a
-// handler constant - so name bytes, client, client-subnet option and max are fixed per question.
+// queries share: the response cache is keyed by (location, type, class, lower-cased name) and
+// the answer count is a handler constant - so client, client-subnet option and max are fixed
+// per question.  The letter case of the name is NOT fixed: queries of one question spell the
+// name as Name or as a random case variant of it (respell); a cached answer keeps the owner
+// names of the query that populated the entry, the question echoed must be the asker's own.
 type cacheQuestion struct {
 	Name   Name
 	Type   int
@@ -204,7 +207,39 @@ func unknownOpts(r *hlib.Rng) []dns.EDNS0 {
 // shapes 2 and 4 fall back to 1 and 3 when the question has no client-subnet option.
 // version is the EDNS version (ignored by shape 0); opcode 0 is QUERY.
 func (cq *cacheQuestion) query(r *hlib.Rng, shape, version, opcode int, tag string) (Query, bool) {
-	q := QSpec{Name: cq.Name, Type: cq.Type, Class: cq.Class, ID: r.Intn(65536), Flags: r.Intn(32), Opcode: opcode}
+	return cq.queryAs(r, cq.Name, shape, version, opcode, tag)
+}
+
+// respell is the name of the question with every ASCII letter in upper or lower case at random.
+func (cq *cacheQuestion) respell(r *hlib.Rng) Name {
+	nn := Name{}
+	for _, l := range cq.Name {
+		b := append([]byte{}, l...)
+		for j := range b {
+			if (b[j] >= 'a' && b[j] <= 'z' || b[j] >= 'A' && b[j] <= 'Z') && r.Chance(1, 2) {
+				b[j] ^= 32
+			}
+		}
+		nn = append(nn, b)
+	}
+	return nn
+}
+
+// queryMaybeRespelled is query with, num times out of den, another spelling of the name.
+func (cq *cacheQuestion) queryMaybeRespelled(r *hlib.Rng, num, den int, shape, version, opcode int, tag string) (Query, bool) {
+	if r.Chance(num, den) {
+		nm := cq.respell(r)
+		if !bytes.Equal(nm.Pack(), cq.Name.Pack()) {
+			tag += "+recase"
+		}
+		return cq.queryAs(r, nm, shape, version, opcode, tag)
+	}
+	return cq.queryAs(r, cq.Name, shape, version, opcode, tag)
+}
+
+// queryAs is query for the given spelling of the question's name.
+func (cq *cacheQuestion) queryAs(r *hlib.Rng, name Name, shape, version, opcode int, tag string) (Query, bool) {
+	q := QSpec{Name: name, Type: cq.Type, Class: cq.Class, ID: r.Intn(65536), Flags: r.Intn(32), Opcode: opcode}
 	if cq.Ecs == nil && (shape == 2 || shape == 4) {
 		shape--
 	}
@@ -323,6 +358,9 @@ var otherOpcodes = []int{1, 2, 4, 5, 3, 6, 15}
 //	     judged = per question the versions 1, 2, 255 and a random one, bare, with the
 //	     client-subnet option, with unknown options, with both, some with another opcode;
 //	     plus bad-version queries for questions that were never asked (cold)
+//
+// Half of the queries on a warm entry (and of the version-0 warm-up queries, a third of the
+// first judged ones) spell the name in another letter case than the question's base spelling.
 func GenCacheHistories(g *Gen, k int) (warmV0, v0, warmBad, bad []Query) {
 	r := g.R
 	qs := genCacheQuestions(g, k)
@@ -346,7 +384,7 @@ func GenCacheHistories(g *Gen, k int) (warmV0, v0, warmBad, bad []Query) {
 			q, ok := cq.query(r, 1+r.Intn(4), badVersion(), 0, "badvers-first")
 			add(&warmV0, q, ok)
 		case 2:
-			q, ok := cq.query(r, r.Intn(3), 0, 0, "v0")
+			q, ok := cq.queryMaybeRespelled(r, 1, 2, r.Intn(3), 0, 0, "v0")
 			add(&warmV0, q, ok)
 			q, ok = cq.query(r, 1+r.Intn(4), badVersion(), 0, "badvers-between")
 			add(&warmV0, q, ok)
@@ -372,7 +410,16 @@ func GenCacheHistories(g *Gen, k int) (warmV0, v0, warmBad, bad []Query) {
 					tag += "+opcode"
 				}
 			}
-			q, ok := cq.query(r, shape, 0, op, tag)
+			// the first query (cold unless the warm-up asked) sometimes, the later ones (warm)
+			// half of the time spell the name differently
+			num := 1
+			if i == 0 {
+				num = 0
+				if r.Chance(1, 3) {
+					num = 2
+				}
+			}
+			q, ok := cq.queryMaybeRespelled(r, num, 2, shape, 0, op, tag)
 			add(&v0, q, ok)
 		}
 	}
@@ -389,10 +436,10 @@ func GenCacheHistories(g *Gen, k int) (warmV0, v0, warmBad, bad []Query) {
 			q, ok := cq.query(r, 1+r.Intn(4), badVersion(), 0, "badvers-first")
 			add(&warmBad, q, ok)
 		}
-		q, ok := cq.query(r, r.Intn(2), 0, 0, "v0")
+		q, ok := cq.queryMaybeRespelled(r, 1, 2, r.Intn(2), 0, 0, "v0")
 		add(&warmBad, q, ok)
 		if cq.Ecs != nil {
-			q, ok = cq.query(r, 2, 0, 0, "v0-ecs")
+			q, ok = cq.queryMaybeRespelled(r, 1, 2, 2, 0, 0, "v0-ecs")
 			add(&warmBad, q, ok)
 		}
 		if r.Chance(1, 2) {
@@ -419,7 +466,7 @@ func GenCacheHistories(g *Gen, k int) (warmV0, v0, warmBad, bad []Query) {
 			if op != 0 {
 				t += "+opcode"
 			}
-			q, ok := cq.query(r, shapes[j], vs[j], op, t)
+			q, ok := cq.queryMaybeRespelled(r, 1, 2, shapes[j], vs[j], op, t)
 			add(&bad, q, ok)
 		}
 	}
